@@ -24,6 +24,7 @@ func init() {
 		},
 		Run: runC33,
 		Controls: []Control{
+			{Name: "refactor-flag-cleared-before-wait", Silent: true, File: "protocols/isis/server/net_ifa.go", Old: "\tnifa.srv.updateL2LSP()\n\tnifa.wg.Wait()\n\tnifa.ethernetInterface = nil\n\tnifa.initialized = false\n", New: "\tnifa.initialized = false\n\tnifa.srv.updateL2LSP()\n\tnifa.wg.Wait()\n\tnifa.ethernetInterface = nil\n"},
 			{Name: "status-not-recorded-on-down", File: "protocols/isis/server/net_ifa.go", Old: "\tnifa.devStatus = dev\n\tif oldState != device.IfOperUp && dev.GetOperState() == device.IfOperUp {", New: "\tif oldState != device.IfOperUp && dev.GetOperState() == device.IfOperUp {\n\t\tnifa.devStatus = dev", Expect: "handler-records-status"},
 			{Name: "done-channel-not-recreated", File: "protocols/isis/server/net_ifa.go", Old: "\t\tnifa.done = make(chan struct{})\n", New: "", Expect: "restart-recreates-consumed"},
 			{Name: "ticker-not-recreated", File: "protocols/isis/server/net_ifa.go", Old: "\t\tnifa.helloTicker = clock.Ticker(time.Duration(nifa.cfg.getMinHelloInterval()) * time.Second)\n\n", New: "\n", Expect: "restart-recreates-consumed"},
